@@ -3,8 +3,8 @@
 package harness
 
 import (
-	"errors"
 	"context"
+	"errors"
 	"fmt"
 	"strings"
 	"sync"
@@ -17,16 +17,18 @@ import (
 )
 
 type c06Case struct {
-	Role  string   `json:"role"`  // client | server
-	Stage string   `json:"stage"` // see stagesFor
-	Ops   []string `json:"ops"`   // order in which the send operations are attempted
+	Role  string   `json:"role"`          // client | server
+	Stage string   `json:"stage"`         // see stagesFor
+	Ops   []string `json:"ops"`           // order in which the send operations are attempted
 	Via   string   `json:"via,omitempty"` // "" = the channel's own methods | handler-sender = the Sender a dispatch-loop handler was given while the session was established (client role, stages after establishment)
 }
 
 // what a handler keeps: the Sender it was called with
 type keptSender struct{ s lime.Sender }
 
-func (k keptSender) SendMessage(ctx context.Context, m *lime.Message) error { return k.s.SendMessage(ctx, m) }
+func (k keptSender) SendMessage(ctx context.Context, m *lime.Message) error {
+	return k.s.SendMessage(ctx, m)
+}
 func (k keptSender) SendNotification(ctx context.Context, n *lime.Notification) error {
 	return k.s.SendNotification(ctx, n)
 }
